@@ -28,6 +28,13 @@ func init() {
 }
 
 func runC11(c *Ctx) {
+	if !importing {
+		// "while the clock is monotone": the one caller stamps with the wall clock, read inside the
+		// critical section that also updates the filter (C04.R1)
+		importObls(c, "C04", runC04, "X04", func(k string) bool {
+			return containsAny(k, "#stamped-in-filter-order", "#TestAndSet-now")
+		})
+	}
 	p := c.P
 	tas := p.Func("common/replayfilter:(*ReplayFilter).TestAndSet")
 	ob := c.Obl("R0", "anchors", "ReplayFilter.TestAndSet exists")
